@@ -1,10 +1,15 @@
 mod world;
 mod probe;
+mod genstmt;
+mod c17;
+mod c18;
 
 fn main() {
     let args: Vec<String> = std::env::args().collect();
     let rt = tokio::runtime::Builder::new_multi_thread().worker_threads(4).enable_all().build().unwrap();
     match args.get(1).map(|s| s.as_str()) {
+        Some("c17") => rt.block_on(c17::main(&args[2..])),
+        Some("c18") => rt.block_on(c18::main(&args[2..])),
         Some("probe") => rt.block_on(probe::main(&args[2..])),
         _ => {
             eprintln!("usage: h_nexustx <c17|c18|probe> ...");
